@@ -78,7 +78,8 @@ fn exec(req: &str) -> String {
             let _ = writeln!(out, "{req}\thang T{} {}", 0, log.join(","));
             let _ = out.flush();
             std::mem::forget(out);
-            std::process::exit(3);
+            // no exit handlers: they would wait for the standard-output lock the stuck main thread holds
+            std::process::abort();
         });
     }
 
@@ -235,12 +236,28 @@ fn main() {
     // Every request runs in a process of its own (`plabs one <request>`): a crash or an escaping
     // panic of the real pool is then an observation of that request, not the end of the lab.
     let isolated = |req: &str| -> String {
+        // the child has its own watchdog (15 s); should even that fail, it is killed here
         let child = std::process::Command::new(std::env::current_exe().unwrap())
             .arg("one")
             .arg(req)
             .stdin(std::process::Stdio::null())
+            .stdout(std::process::Stdio::piped())
             .stderr(std::process::Stdio::null())
-            .output();
+            .spawn()
+            .and_then(|mut c| {
+                let t0 = std::time::Instant::now();
+                loop {
+                    if c.try_wait()?.is_some() {
+                        break;
+                    }
+                    if t0.elapsed() > Duration::from_secs(40) {
+                        let _ = c.kill();
+                        break;
+                    }
+                    std::thread::sleep(Duration::from_millis(2));
+                }
+                c.wait_with_output()
+            });
         match child {
             Ok(o) => {
                 let text = String::from_utf8_lossy(&o.stdout).to_string();
@@ -250,6 +267,7 @@ fn main() {
                 } else {
                     use std::os::unix::process::ExitStatusExt;
                     match (o.status.signal(), o.status.code()) {
+                        (Some(9), _) => "hang T0 (no answer within 40 s; killed by the lab)".to_string(),
                         (Some(sig), _) => format!("crash signal={sig}"),
                         (_, Some(c)) => format!("crash exit={c}"),
                         _ => "crash unknown".to_string(),
@@ -268,10 +286,20 @@ fn main() {
         }
         Some("gen") => {
             let mut rng = rng::Rng::new(args[3].parse().unwrap(), &args[2]);
+            // a few histories that hang or crash are enough evidence: each hang costs its watchdog's
+            // 15 s, so the lab stops after the third
+            let mut bad = 0;
             for req in gen(&mut rng, args[4].parse().unwrap()) {
                 let obs = isolated(&req);
+                let is_bad = obs.starts_with("hang") || obs.starts_with("crash");
                 writeln!(out, "{req}\t{obs}").unwrap();
                 out.flush().unwrap();
+                if is_bad {
+                    bad += 1;
+                    if bad >= 3 {
+                        std::process::exit(3);
+                    }
+                }
             }
         }
         Some("reqs") => {
